@@ -125,6 +125,8 @@ def ensure_harness(name, variant="std", libs=("dtoolbase",), extra=(), compiler=
             return out
         cxx = compiler or ("clang++" if variant == "fuzz" else "g++")
         flags = ["-std=gnu++17", "-O1", "-g", "-D" + build.GUARD]
+        if variant != "std":
+            flags += ["-fno-rtti", "-fno-sanitize=vptr"]      # the project is built without RTTI
         if san is None:
             san = {"std": [], "asan": ["-fsanitize=address,undefined", "-fno-sanitize-recover=undefined"],
                    "fuzz": ["-fsanitize=fuzzer,address,undefined", "-fno-sanitize-recover=undefined"]}[variant]
